@@ -34,6 +34,10 @@ CHECKS = {
    tech='symbolic execution (z3) of the kind tables over all u8 codes and all ASCII names of length <= 8, of every is_*/TryFrom/getter on a value of each kind with symbolic payload, and of Grid::make_from_dicts over all key-membership patterns; Kani for the code table; every path replayed natively',
    text='HaystackKind::try_from(u8) for a symbolic code and try_from(&str) for symbolic names (lengths 0..8) are executed from MIR: accepted codes/names must be exactly the 18 kinds, one-to-one with From<HaystackKind> for &str and Display. For a value of each of the 18 kinds (payload symbolic) exactly the matching predicate, the matching TryFrom<&Value> conversions (returning the payload) and the matching HaystackDict getters succeed, and nothing succeeds on a missing key. Grid::make_from_dicts(_with_meta) over <= 2 (quick) / 3 (thorough) records with every membership pattern of keys {a,b,c,d}: rows kept in order, columns = sorted de-duplicated union.',
    note='Bounds as stated; HashSet iteration order is modelled as insertion order (the result is sorted afterwards). Kani: all 256 codes.'),
+ 'C04': dict(engine=M, cat='model_checking', design='7 (C04), 4.5',
+   tech='differential symbolic execution: the crate MIR against a reference Zinc reader/writer written from the specification (/verif/spec/zinc.py) on the same symbolic values; z3 decides whether the denoted values can differ; witnesses replayed natively',
+   text='Writer direction: for every well-formed catalogue shape (symbolic leaves) the text produced by the real encoder is read by the reference reader, which must accept it and obtain the original value. Reader direction: the reference writer spells the same values with every legal spelling choice as a fork (short escape vs \\uXXXX in lower/upper hex vs raw, digit separator, exponent form, unit name vs symbol, list spacing and trailing comma, dict separator, explicit :M, Z vs Z UTC, LF vs CRLF, named IANA zones with fractional offsets) and the real decoder must return the denoted value (instants compared for named zones).',
+   note='Bounds as C01 (strings <= 3 code points, collections <= 2, nesting <= 2). The reference implementation is part of the trusted base (written from the Zinc chapter; ambiguities - Uri backslash, XStr type C - are outside the oracle). IANA zone rules: only the instant and the zone id are compared for named zones.'),
 }
 NA = {
  'C14': 'quantifies over thread interleavings on dashmap\'s sharded locks: Kani has no thread model, mirsym is sequential and dashmap is outside the MIR dump; no solver-based engine on this image reaches it (DESIGN.md section 8)',
